@@ -23,9 +23,11 @@ import _thread
 import os
 import sys
 import threading
+import weakref
 
 HERE = os.path.dirname(os.path.abspath(__file__))
 ACTIVE = [None]          # the scheduler that currently runs lanes, if any
+LOCKS = []               # weak references to the cooperative locks handed out
 _REAL_LOCK = threading.Lock
 _REAL_RLOCK = threading.RLock
 
@@ -38,9 +40,11 @@ class SimInterrupt(BaseException):
 class CoopLock:
     """threading.Lock / RLock as seen by code imported after install_cooperative_locks()."""
 
-    def __init__(self, real):
+    def __init__(self, real, factory=None):
         self._real = real
+        self._factory = factory
         self._owner = None      # lane that took the lock under a scheduler (None otherwise)
+        LOCKS.append(weakref.ref(self))
 
     def acquire(self, blocking=True, timeout=-1):
         sch = ACTIVE[0]
@@ -77,12 +81,91 @@ class CoopLock:
 
 
 def install_cooperative_locks():
-    threading.Lock = lambda: CoopLock(_REAL_LOCK())
-    threading.RLock = lambda: CoopLock(_REAL_RLOCK())
+    threading.Lock = lambda: CoopLock(_REAL_LOCK(), _REAL_LOCK)
+    threading.RLock = lambda: CoopLock(_REAL_RLOCK(), _REAL_RLOCK)
+
+
+def recover_leaked_locks():
+    """Called by the thread that ran a schedule once all its lanes have ended: a library lock
+    that is still held now can only have been left behind by a cancellation that slipped through
+    a release path (an artefact of where the simulator raised, see no_cancel_lines).  Such a lock
+    gets a fresh inner lock so that the interpreter can go on; the caller discards the run."""
+    leaked = 0
+    alive = []
+    for ref in LOCKS:
+        lock = ref()
+        if lock is None:
+            continue
+        alive.append(ref)
+        if lock._factory is None:
+            continue
+        if lock._real.acquire(False):
+            lock._real.release()
+        else:
+            lock._real = lock._factory()
+            lock._owner = None
+            leaked += 1
+    LOCKS[:] = alive
+    return leaked
+
+
+_NO_CANCEL = {}
+
+
+def no_cancel_lines(filename):
+    """Lines of a source file at which a call is never cancelled: the header line of a `with`
+    statement (CPython runs __exit__ of the normal path from that line, outside the protected
+    region), `try:` lines, and the bodies of `finally:` and `except:` blocks.  An asynchronous exception can hit
+    those places in reality too, but code that releases its resources with `with` / `finally`
+    has done what can be done; reporting it would be a false alarm."""
+    got = _NO_CANCEL.get(filename)
+    if got is None:
+        import ast
+        got = set()
+        try:
+            with open(filename, "rb") as fh:
+                tree = ast.parse(fh.read())
+            for node in ast.walk(tree):
+                if isinstance(node, (ast.With, ast.AsyncWith)):
+                    got.update(range(node.lineno, node.body[0].lineno))
+                elif isinstance(node, ast.Try):
+                    # (the `try:` line itself: CPython 3.12 places its NOP outside the range
+                    # an enclosing `with` protects - an exception raised there skips __exit__)
+                    got.add(node.lineno)
+                    for part in list(node.finalbody) + [st for h in node.handlers
+                                                        for st in h.body]:
+                        got.update(range(part.lineno, (part.end_lineno or part.lineno) + 1))
+                    for h in node.handlers:
+                        got.add(h.lineno)
+        except (OSError, SyntaxError, ValueError):
+            pass
+        _NO_CANCEL[filename] = got
+    return got
+
+
+def line_recorder(pkg_dir, seen, counter=None):
+    """Trace function for calls made outside a schedule (the sequential reference): records
+    which library lines have been executed in this interpreter and counts the steps (the
+    estimate a fraction-placed cancellation is resolved against), nothing else."""
+    pkg = pkg_dir.rstrip(os.sep) + os.sep
+
+    def local(frame, event, arg):
+        if event == "line":
+            seen.add((frame.f_code, frame.f_lineno))
+            if counter is not None:
+                counter[0] += 1
+        return local
+
+    def glob(frame, event, arg):
+        if frame.f_code.co_filename.startswith(pkg):
+            return local
+        return None
+    return glob
 
 
 class Scheduler:
-    def __init__(self, pkg_dir, switches, first=0, wall=30.0, transparent=(), interrupt=None):
+    def __init__(self, pkg_dir, switches, first=0, wall=30.0, transparent=(), interrupt=None,
+                 seen=None):
         self.pkg = pkg_dir.rstrip(os.sep) + os.sep
         # pure-Python framework code without locks of its own (flamapy.core): its frames may sit
         # between library frames (Metrics.execute() calling back into FMMetrics) without making
@@ -106,8 +189,20 @@ class Scheduler:
         self.lock_yields = 0   # a lane found a library lock taken and handed the baton on
         self.errors = []
         # {"lane": i, "after": n}: lane i is cancelled at its n-th step (next allowed line)
-        self.interrupt = dict(interrupt) if interrupt else None
-        self.interrupted = None     # (lane, step, "file:line") once it happened
+        # one or more of them (a dict or a list of dicts), at most one per lane; "new_line": k
+        # and "plus": m instead of "after": see `seen` below
+        if isinstance(interrupt, dict):
+            interrupt = [interrupt]
+        self.interrupts = {}
+        for spec in interrupt or []:
+            self.interrupts.setdefault(spec["lane"], dict(spec))
+        self.lane_steps = {}
+        self.interrupted = None     # (lane, step, "file:line") of the first cancellation
+        self.cancelled = {}         # lane -> "file:line"
+        # (code object, line) pairs of library code already executed in this interpreter: with
+        # {"new_line": k} the lane is cancelled at the k-th line it is the first to execute
+        # (cold paths: first-use initialisation, cache fills, rarely taken branches)
+        self.seen = seen if seen is not None else set()
         self._arm()
 
     def _arm(self):
@@ -126,13 +221,29 @@ class Scheduler:
     def _local_trace(self, frame, event, arg):
         if event == "line" and not self.stalled:
             self.steps += 1
-            intr = self.interrupt
-            if intr is not None and intr["lane"] == self.current:
-                intr["after"] -= 1
-                if intr["after"] <= 0 and self._eligible(frame):
-                    self.interrupt = None
-                    self.interrupted = (self.current, self.steps, "%s:%d" % (
-                        os.path.basename(frame.f_code.co_filename), frame.f_lineno))
+            key = (frame.f_code, frame.f_lineno)
+            fresh = key not in self.seen
+            if fresh:
+                self.seen.add(key)
+            intr = self.interrupts.get(self.current) if self.interrupts else None
+            if intr is not None:
+                if intr.get("new_line", 0) > 0:
+                    # first wait for the k-th line nobody has executed yet, then `plus` more steps
+                    if fresh:
+                        intr["new_line"] -= 1
+                    due = intr["new_line"] <= 0 and intr.get("plus", 0) <= 0
+                elif "new_line" in intr:
+                    intr["plus"] = intr.get("plus", 0) - 1
+                    due = intr["plus"] <= 0
+                else:
+                    intr["after"] -= 1
+                    due = intr["after"] <= 0
+                if due and self._eligible(frame) and self._cancellable(frame):
+                    del self.interrupts[self.current]
+                    where = "%s:%d" % (os.path.basename(frame.f_code.co_filename), frame.f_lineno)
+                    self.cancelled[self.current] = where
+                    if self.interrupted is None:
+                        self.interrupted = (self.current, self.steps, where)
                     raise SimInterrupt("call cancelled at step %d" % self.steps)
             if self.countdown is not None:
                 self.countdown -= 1
@@ -157,6 +268,18 @@ class Scheduler:
                 return True             # reached the lane body: only library frames above it
             return False
         return False
+
+    def _cancellable(self, frame):
+        f = frame
+        while f is not None:
+            name = f.f_code.co_filename
+            if name.startswith(self.pkg) or name.startswith(self.transparent):
+                if f.f_lineno in no_cancel_lines(name):
+                    return False
+            elif name.startswith(HERE):
+                break
+            f = f.f_back
+        return True
 
     def _others(self, me):
         return [i for i in range(len(self.done)) if i != me and not self.done[i]]
